@@ -45,29 +45,43 @@ def strat(b):
     return "%s/%s/%s/%s" % (s["act"], s.get("mode"), s.get("side"), s.get("why"))
 
 
+def absorb(chk, recs, label):
+    """A property violation takes precedence over model mismatches of the same run (the shared absorb stops at
+    the first mismatch): when the driver found violations that are not known findings, its mismatch records
+    are set aside and noted, so that the check ends with VIOLATION / exit 1 rather than exit 2."""
+    known = {k["key"] for k in chk.known}
+    fresh = [r for r in recs if r.get("kind") == "violation" and r.get("key") not in known]
+    mism = [r for r in recs if r.get("kind") == "mismatch"]
+    if fresh and mism:
+        chk.notes.append("%s: %d model mismatches set aside because the run found violations" % (label, len(mism)))
+        recs = [r for r in recs if r.get("kind") != "mismatch"]
+    chk.absorb(recs, label)
+
+
 def run(chk):
     thorough = chk.tier == "thorough"
     rng = random.Random(vf.seed() * 17 + 39)
     binary = vf.go_build("bloom")
     tier = "thorough" if thorough else "quick"
 
-    # 1. exhaustive check of the model
-    r = vf.tlc("Edge", "Bloom", "mc.cfg", cfg_text=cfg(6 if thorough else 5, 3), workers=8, timeout=1500,
-               jvm=("-XX:ParallelGCThreads=4",))
-    vf.tlc_ok(r, "Bloom exhaustive")
-    chk.add_tlc(r, "exhaustive Bloom.tla (ops<=%d, adds<=3)" % (6 if thorough else 5))
+    # 1. exhaustive check of the model (thorough: a deeper one without extraction first)
+    if thorough:
+        r = vf.tlc("Edge", "Bloom", "mc.cfg", cfg_text=cfg(6, 3), workers=8, timeout=1500, jvm=("-XX:ParallelGCThreads=4",))
+        vf.tlc_ok(r, "Bloom exhaustive")
+        chk.add_tlc(r, "exhaustive Bloom.tla (ops<=6, adds<=3)")
 
-    # 2. one behaviour per edge -> real filters
-    r = vf.tlc("Edge", "Bloom", "x.cfg", cfg_text=cfg(5 if thorough else 4, 3 if thorough else 2, emit="Emit", props=False),
-               workers=1, timeout=1500)
-    vf.tlc_ok(r, "Bloom extraction")
+    # 2. exhaustive check + one behaviour per edge -> real filters
+    ops, adds = (5, 3) if thorough else (4, 3)
+    r = vf.tlc("Edge", "Bloom", "x.cfg", cfg_text=cfg(ops, adds, emit="Emit"), workers=8, timeout=1500,
+               jvm=("-XX:ParallelGCThreads=4",))
+    vf.tlc_ok(r, "Bloom exhaustive + extraction")
     behs, st = vf.behaviours(r, limit=12000 if thorough else 1500, rng=rng, strat_key=strat, per_class=200 if thorough else 20)
-    chk.add_tlc(r, "edge extraction")
+    chk.add_tlc(r, "exhaustive Bloom.tla + edge extraction (ops<=%d, adds<=%d)" % (ops, adds))
     chk.cov.setdefault("extraction", []).append(st)
     path = os.path.join(vf.scratch(), "bl.jsonl")
     vf.write_json_lines(path, behs)
     recs, _ = vf.run_driver(binary, ["replay", path, tier])
-    chk.absorb(recs, "replay edges on real filters")
+    absorb(chk, recs, "replay edges on real filters")
 
     # 3. deeper simulated behaviours
     num = 4000 if thorough else 400
@@ -79,7 +93,7 @@ def run(chk):
     path = os.path.join(vf.scratch(), "bl-sim.jsonl")
     vf.write_json_lines(path, sims)
     recs, _ = vf.run_driver(binary, ["replay", path, tier])
-    chk.absorb(recs, "replay simulated behaviours on real filters")
+    absorb(chk, recs, "replay simulated behaviours on real filters")
 
     # binding self-test: claim an item is in the filter that never was added -> a real filter that is
     # large enough does not match it, the driver must object
@@ -95,10 +109,10 @@ def run(chk):
                  any(x.get("kind") == "violation" and x.get("key", "").startswith("C39:false-negative") for x in recs))
 
     chk.assumptions += [
-        "one-sided oracle: only 'must match' is checked (false positives are legitimate); %s" %
-        "unforced matches are counted in the evidence",
+        "one-sided oracle: only 'must match' is checked (false positives are legitimate; unforced matches are counted in "
+        "the evidence)",
         "items: 3 program hashes (standard / multisig / other prefix), 4 transaction templates with spend chains, 5 outpoints; "
-        "<= 3 explicit additions, <= %d steps exhaustively, 7 by simulation" % (5 if thorough else 4),
+        "<= 3 explicit additions, <= %d steps exhaustively (replayed: <= %d), 7 by simulation" % ((6, 5) if thorough else (4, 4)),
         "the real MatchTxAndUpdate ignores the update flags and always adds the outpoint (a superset of every mode), which the "
         "one-sided oracle admits",
         "tweak 0xffffffff (side-chain mode) is modelled as the named deviation MatchTxSideChain and reported as a known finding",
